@@ -109,7 +109,13 @@ def recognised_tags(rng, kind):
             return [mk_tag("prop", PROPKEY[kind]), mk_tag("value", rng.choice(CONST[kind]))]
         if kind in ("int", "string"):
             tag = "rec" if r < 0.86 else "aux"
-            args = [] if rng.random() < 0.4 else [("a", ["1", "2"]), ("flag", [""])][:rng.choice([1, 2])]
+            # arguments of a user-supplied tag processor reach it as written: several values, a bare flag, an explicit empty
+            # value, and bracketed values that contain blanks (one item each: the grammar is C19's, the delivery is C11's)
+            pool = [[("a", ["1", "2"]), ("flag", [""])][:rng.choice([1, 2])],
+                    [("bounds", ["[1 10]"]), ("labels", ["(a b)", "c"])][:rng.choice([1, 2])],
+                    [("unit", [""]), ("set", ["{x y z}"])],
+                    [("Opts", ["[p q]", "r", "(s t)"])]]
+            args = [] if rng.random() < 0.4 else rng.choice(pool)
             return [mk_tag(tag, rng.choice(["x", "x.y", "k9", ""]), args)]
         return [mk_tag("value", rng.choice(CONST[kind]))]
     if kind in ("dep", "depi", "depis"):
